@@ -130,7 +130,7 @@ func checkC02(c *Ctx) {
 				stop := false
 				eachInstr(fn, func(_ *ssa.BasicBlock, _ int, in ssa.Instruction) {
 					if r, ok := in.(*ssa.Return); ok && len(r.Results) == 1 {
-						if s, ok := constString(r.Results[0]); !ok || s != "Continue" {
+						if s, ok := constString(returnedValues(r)[0]); !ok || s != "Continue" {
 							stop = true
 						}
 					}
@@ -614,7 +614,7 @@ func counterWrapperOp(g *ssa.Function) string {
 				ok = false
 				return
 			}
-			bo, isBo := ret.Results[0].(*ssa.BinOp)
+			bo, isBo := returnedValues(ret)[0].(*ssa.BinOp)
 			if !isBo || bo.Op != token.EQL || bo.X != ssa.Value(decs[0]) {
 				ok = false
 				return
@@ -888,7 +888,7 @@ func checkChildCounters(c *Ctx, e *ownEngine, rule string) {
 			continue
 		}
 		lenOK := false
-		if call, ok := stripConv(storeCW.Call.Args[1]).(*ssa.Call); ok && isBuiltin(call, "len") && call.Call.Args[0] == storeCh.Val && ret.Results[0] == storeCh.Val {
+		if call, ok := stripConv(storeCW.Call.Args[1]).(*ssa.Call); ok && isBuiltin(call, "len") && call.Call.Args[0] == storeCh.Val && returnedValues(ret)[0] == storeCh.Val {
 			lenOK = true
 		}
 		c.Check(lenOK, rule, site+" counter = number of children", storeCW.Pos(), "childWait.Store(len(children)) of the very slice that is stored and returned", "childWait is not initialised to the number of children that are handed out (parent completes early or never)")
@@ -1097,7 +1097,7 @@ func checkFlushGate(c *Ctx, rule string) {
 					}
 					// an error return (value tested non-nil on the dominating edge) leaves the caller's loop: checked there
 					if len(r.Results) > 0 {
-						last := r.Results[len(r.Results)-1]
+						last := returnedValues(r)[len(r.Results)-1]
 						for _, ref := range refsOf(last) {
 							if bo, ok := ref.(*ssa.BinOp); ok && bo.Op == token.NEQ && isNilConst(bo.Y) && condEdge(b, bo, true) {
 								return
